@@ -29,7 +29,7 @@ from prosemirror.transform import (
     structure,
 )
 from prosemirror.transform.replace import replace_step
-from prosemirror.utils import JSON, Attrs
+from prosemirror.utils import JSON, Attrs, text_length
 
 from .doc_attr_step import DocAttrStep
 
@@ -235,7 +235,11 @@ class Transform:
                                 0,
                             )
                         repl_steps.append(
-                            ReplaceStep(cur + m.start(), cur + m.end(), slice),
+                            ReplaceStep(
+                                cur + text_length(child.text[: m.start()]),
+                                cur + text_length(child.text[: m.end()]),
+                                slice,
+                            ),
                         )
                         m = newline.search(child.text, m.end())
             cur = end
